@@ -134,6 +134,7 @@ Print Assumptions C11_created_target_holds_rhs.
 Theorem C11_missing_created_partial :
   forall lit cfg segs value vo d d' pc next' ri l w out,
     wf_doc d -> creates d segs = true ->
+    null_prefix d segs = false ->   (* the existing prefix does not end at a null (else that null is replaced by a container: C09) *)
     create_query lit segs value vo d = ROk (d', pc, next') ->
     resolve_loc d' segs = Some (l, w) ->
     is_none (NLeaf ri value) = false ->
@@ -158,7 +159,7 @@ Print Assumptions C11_created_location_exists.
 Example C11_missing_created_nonvacuous :
   let d := mp 10 [(ky "a", lf 3 (PInt 1))] in
   let segs := [SKey "x" None; SKey "y" None] in
-  wf_docb d = true /\ creates d segs = true /\
+  wf_docb d = true /\ creates d segs = true /\ null_prefix d segs = false /\
   match create_query no_lit segs (PInt 7) (Some 7) d with
   | ROk (d', _, _) =>
       match resolve_loc d' segs with
